@@ -577,7 +577,9 @@ class StmtMixin:
             self._iter_list = lz
             return "list", h.llen(lz), (lambda k, q: RefV(q.heap.litem(lz, k), "Node"))
         if itv.tag == "tuple":
-            raise Unsupported("iteration over a tuple")
+            if len(itv.z) == 0:  # `xs or ()`
+                return "tuple", z3.IntVal(0), (lambda k, q: RefV(L.NONE, "Node"))
+            raise Unsupported("iteration over a non-empty tuple")
         if itv.tag == "iter":
             name, vs = itv.z
             if name == "range":
